@@ -87,10 +87,13 @@ def full_tok(conf):
     return tok + [[255, 60, 97, 62], [255, 60, 124, 101, 110, 100, 124, 62]]
 
 
-SW_OK = {"clearOnRollback": 1, "keyRow": 1, "keyPending": 1, "resetLastForce": 1, "vendMax": 0}
+SW_OK = {"clearOnRollback": 1, "keyRow": 1, "keyPending": 1, "resetLastForce": 1, "vendMax": 0, "clearFFOnRollback": 1}
 # design slips the model must reject: (switch, value, configuration it shows on)
 NEGATIVE = [("clearOnRollback", 0, "ab_digits_bang"), ("keyRow", 0, "list_bang"),
-            ("vendMax", 1, "brackets"), ("resetLastForce", 0, "forced_two")]
+            ("vendMax", 1, "brackets"), ("resetLastForce", 0, "forced_two"),
+            # canonical tokenizer: the remembered fast-forward tokens kept across rollback (the seeded change C12-c)
+            ("clearFFOnRollback", 0, "forced_two")]
+NEG_CANON = {"clearFFOnRollback"}
 
 
 def conf_json(conf, depth, cap, record, sw=None, fuel=8, canon=0):
@@ -129,7 +132,7 @@ def u1(res, tier, wd=None):
 
     def neg(t):
         sw, val, name = t
-        c, cp = run_model(by[name], ndepth, 2, 0, wd, sw={sw: val}, tag=f"-neg-{sw}")
+        c, cp = run_model(by[name], ndepth, 2, 0, wd, sw={sw: val}, tag=f"-neg-{sw}", canon=1 if sw in NEG_CANON else 0)
         r = core.tlc_check("MC_EngineImpl", workers=2, timeout=3600, extra_env={"CONFIG": cp}, tag=f"impl-neg-{sw}")
         viol = "is violated" in r["out"]
         return sw, name, viol, r
